@@ -11,7 +11,7 @@ def _cfg(d):
 
 
 CHECKS['C04'] = {
-    'ready': False,
+    'ready': True,
     'level': 'exploration',
     'rule': '(A) histories: rapid draws a configuration (1-2 Directory volumes writable/read-only, BlobTrash on/off, TTL 5m/1h/2w, trash lifetime 0/1h and '
             'changed between steps, BlobDeleteConcurrency 0/1/4, BlobTrashConcurrency 1/4, Serialize), an initial state per (volume, 3 hashes) '
@@ -30,8 +30,8 @@ CHECKS['C04'] = {
         'the DELETE response body (copies_deleted) is not compared',
     ],
     'units': [
-        unit('histories', 'keepstore_c04', '^TestVerifC04Histories$', _cfg({'shards': 12, 'checks': 80}), _cfg({'shards': 16, 'checks': 4000, 'timeout': 1500})),
-        unit('interleave', 'keepstore_c04', '^TestVerifC04Interleave$', _cfg({'shards': 2, 'checks': 15}), _cfg({'shards': 8, 'checks': 250, 'timeout': 1500})),
+        unit('histories', 'keepstore_c04', '^TestVerifC04Histories$', _cfg({'shards': 12, 'checks': 80}), _cfg({'shards': 16, 'checks': 10000, 'timeout': 1500})),
+        unit('interleave', 'keepstore_c04', '^TestVerifC04Interleave$', _cfg({'shards': 2, 'checks': 15}), _cfg({'shards': 8, 'checks': 500, 'timeout': 1500})),
         unit('exhaustive', 'keepstore_c04', '^TestVerifC04Exhaustive$', _cfg({'shards': 2, 'env': {'VERIF_NSHARDS': 2}}), _cfg({'shards': 8, 'env': {'VERIF_NSHARDS': 8}, 'timeout': 1500}),
              rapid=False, shard_arg=True),
     ],
